@@ -15,6 +15,8 @@ L1_LINES = {
     "C04": re.compile(r"^(status|wrapper \S+ (variants|tables)|enum \S+ variants)"),
     "C05": re.compile(r"^(status|enum \S+ table|wrapper \S+ tables)"),
     "C11": re.compile(r"^(status|wrapper \S+ (bridged|variants))"),
+    "C15": re.compile(r"^(status|(enum|struct) \S+ (generics|impl_where|dispatch_generics|type_where))"),
+    "C17": re.compile(r"^(status|(enum|struct) \S+ attrs|variant \S+ (attrs|fields)|struct \S+ fields)"),
 }
 
 
@@ -66,6 +68,60 @@ def l1_oracle(pid, p, impl_lines, run, desc):
                 want = "%s:%s" % (ms[0].name, ",".join(a.name for a in ms[0].args))
                 if got != want:
                     run.oracle_fail("%s dispatches as `%s`, expected `%s`" % (sn, got, want), desc)
+    if pid == "C15":
+        gens = list(p.generics) if is_c else [n for n, _ in p.assoc if n != "Error"]
+        for kind, base in (("exec", "ExecMsg"), ("query", "QueryMsg"), ("sudo", "SudoMsg"), ("instantiate", "InstantiateMsg"), ("migrate", "MigrateMsg")):
+            if not is_c and kind in ("instantiate", "migrate"):
+                continue
+            tn = ("enum " if kind in ("exec", "query", "sudo") else "struct ") + prefix + base
+            if tn + " generics" not in d:
+                continue
+            ms = [m for m in p.methods() if m.kind() == kind]
+            used = []
+            for m in ms:
+                tys = [a.ty for a in m.args]
+                if kind == "query":
+                    ma = m.msg_attr()
+                    if ma[2] is None and m.ret.kind == "path" and m.ret.segs[0][1]:
+                        tys.append(m.ret.segs[0][1][0])
+                for t in tys:
+                    for g in gens:
+                        if g not in used and gen.mentions(strip_self_ty(t), g):
+                            used.append(g)
+            got = [x for x in d.get(tn + " generics", "").split(",") if x]
+            if sorted(got) != sorted(used) or len(set(got)) != len(got):
+                run.oracle_fail("%s%s is parameterised by %s; its handlers use %s" % (prefix, base, got, used), desc)
+            unused = [g for g in gens if g not in used]
+            gotu = [x for x in d.get(tn + " dispatch_generics", "").split(",") if x]
+            if sorted(gotu) != sorted(unused):
+                run.oracle_fail("dispatch of %s%s takes the extra parameters %s; the unused ones are %s" % (prefix, base, gotu, unused), desc)
+    if pid == "C17":
+        fw = {}
+        for a in p.attrs:
+            if a.sv and a.sv[0] == "msg_attr":
+                fw.setdefault(a.sv[1], []).append(canon_ty(a.sv[2]))
+        for kind, base in (("exec", "ExecMsg"), ("query", "QueryMsg"), ("sudo", "SudoMsg"), ("instantiate", "InstantiateMsg"), ("migrate", "MigrateMsg")):
+            if not is_c and kind in ("instantiate", "migrate"):
+                continue
+            tn = ("enum " if kind in ("exec", "query", "sudo") else "struct ") + prefix + base
+            if tn + " attrs" not in d:
+                continue
+            got = [x for x in d.get(tn + " attrs", "").split(";;") if x]
+            if got != fw.get(kind, []):
+                run.oracle_fail("%s%s carries the forwarded attributes %s; forwarded to `%s` were %s" % (prefix, base, got, kind, fw.get(kind, [])), desc)
+        for kind, base in (("exec", "ExecMsg"), ("query", "QueryMsg"), ("sudo", "SudoMsg")):
+            en = prefix + base
+            ms = [m for m in p.methods() if m.kind() == kind]
+            variants = [v for v in d.get("enum %s variants" % en, "").split(",") if v and v != "_Phantom"]
+            for m, v in zip(ms, variants):
+                want = [canon_ty(a.sv[1]) for a in m.attrs if a.sv and a.sv[0] == "attr"]
+                got = [x for x in d.get("variant %s::%s attrs" % (en, v), "").split(";;") if x and not x.startswith("returns(")]
+                if got != want:
+                    run.oracle_fail("variant %s::%s carries %s; its handler `%s` forwards %s" % (en, v, got, m.name, want), desc)
+                wantf = ";".join("%s:%s[%s]" % (a.name, canon_ty(strip_self_txt(a.ty.rust())), "|".join("".join(x.rust().split()) for x in a.attrs)) for a in m.args)
+                gotf = d.get("variant %s::%s fields" % (en, v))
+                if gotf is not None and gotf != wantf:
+                    run.oracle_fail("fields of %s::%s are `%s`; the arguments of `%s` are `%s`" % (en, v, gotf, m.name, wantf), desc)
     if pid == "C11" and is_c:
         ifs = [a.sv for a in p.attrs if a.sv and a.sv[0] == "messages"]
         for wn, ep in (("ContractExecMsg", "execute"), ("ContractQueryMsg", "query"), ("ContractSudoMsg", "sudo")):
@@ -90,6 +146,14 @@ def l1_oracle(pid, p, impl_lines, run, desc):
 
 def canon_ty(s):
     return "".join(s.split())
+
+
+def strip_self_ty(t):
+    from ..prog import Ty
+    if t.kind == "path":
+        segs = tuple((n, tuple(strip_self_ty(a) for a in args)) for n, args in t.segs if n != "Self")
+        return Ty("path", segs=segs)
+    return Ty(t.kind, items=tuple(strip_self_ty(a) for a in t.items))
 
 
 def strip_self_txt(s):
@@ -140,6 +204,7 @@ def run_l2(run, pid, rng, thorough, flags):
     c = build_corpus(run, rng, thorough)
     try:
         s = l2msg.Suite(run, c, rng, n_values=4 if thorough else 3)
+        s.c17 = flags.get("c17", False)
         s.round_encode(c01=flags.get("c01", False))
         if flags.get("decode", True):
             s.round_decode(per_prog_docs=(30 if thorough else 10), c02=flags.get("c02", False),
